@@ -621,6 +621,20 @@ func (c *EvalCtx) call(e *Expr) CV {
 		return boolean("(fp.eq " + a[0].T + " " + a[1].T + ")")
 	case "typeName":
 		return CV{T: "(typeName (dyn " + args()[0].T + "))", Sort: "Str", Type: types.Typ[types.String]}
+	case "cloFn":
+		return integer("(cloFn " + args()[0].T + ")")
+	case "cloBind":
+		a := args()
+		return integer("(cloBind " + a[0].T + " " + a[1].T + ")")
+	case "fnconst":
+		if len(e.Args) != 1 || e.Args[0].Op != "str" {
+			c.fail("fnconst needs a string")
+		}
+		fn := c.w().funcByName[e.Args[0].Name]
+		if fn == nil {
+			c.fail("fnconst: unknown function %q", e.Args[0].Name)
+		}
+		return integer(c.w().funcConst(fn))
 	case "rangeKey":
 		a := args()
 		return CV{T: "(rangeKey " + a[0].T + " " + a[1].T + ")", Sort: "Str", Type: types.Typ[types.String]}
